@@ -23,6 +23,8 @@ type OSProfile struct {
 	CompletePrev bool   // every set names all earlier sets as previous (no contested objects)
 	Sliced       int    // 0 inline; 1 move phase objects into hand-made ObjectSlices
 	OldestFirst  bool   // archive/delete operations only hit the oldest set still alive (no re-create race among older revisions)
+	DelegateMask int    // bit i set: phase i of every set is delegated to class "default" (no choices consumed)
+	NoOrphan     bool   // no orphan-propagation deletes among the lifecycle operations
 	AllLate      bool   // every set but the first is created by its own user operation
 	DriftOnly    bool   // the intruder only edits managed fields, deletes, and blocks deletion (C10)
 }
@@ -218,6 +220,9 @@ func GenOS(w *World, prof OSProfile) *Scenario {
 		for i := 0; i < nOps; i++ {
 			name := g.Names[s.Intn(len(g.Names), "lc-target")]
 			op := s.Intn(5, "lc-op")
+			if prof.NoOrphan && op == 4 {
+				op = 3
+			}
 			if prof.OldestFirst && op >= 2 {
 				if tornDown >= len(g.Names) {
 					continue
@@ -337,6 +342,9 @@ func genTemplateSpec(w *World, g *OSGen, prof OSProfile, i int) map[string]any {
 	var allObjs []any
 	for pi := 0; pi < nPh; pi++ {
 		ph := map[string]any{"name": phaseName(pi)}
+		if prof.DelegateMask&(1<<uint(pi)) != 0 {
+			ph["class"] = "default"
+		}
 		if prof.Delegation {
 			opts := []int{6, 3, 0}
 			if w.Cfg.Hosted {
